@@ -591,7 +591,14 @@ def c09(tier):
     else:
         tasks += shard(cancel_tasks(["C09"], (1, 0), ["chain3", "indep3"], followups=False), 16)
     tasks += input_grid_tasks(["C09"], ns=(1, 2, 3) if tier == "thorough" else (3,), two_groups=False)
-    bounds = f"REP graphs x exit codes x cancel flags at {b[0]} preemption(s); cancel-jobs actor at every point; input grid at budget 0; invariant evaluated after every transition that touched a status file while the cluster lock is free"
+    # resubmissions (the baseline of the monotonicity clauses is reset by a resubmission)
+    for t in c13_tasks(tier):
+        if t["cls"].startswith("resubmit-complete") and ("-l1-" in t["id"] or tier == "thorough") and "-r0-" in t["id"] or t["cls"] == "resubmit-after-cancel":
+            t = dict(t)
+            t["oracles"] = ["Obs", "C09"]
+            t["id"] = "c09-" + t["id"]
+            tasks.append(t)
+    bounds = f"REP graphs x exit codes x cancel flags at {b[0]} preemption(s); cancel-jobs actor at every point; input grid at budget 0; resubmissions of submissions with a lost batch (all 8 flag combinations) and after cancel; invariant evaluated after every transition that touched a status file while the cluster lock is free"
     return explore_check("C09", tier, tasks, S_RULE, COMMON_ASSUMPTIONS + ["at L0 writers that do not take the cluster lock are observed only between their transitions"], dict(bounds=bounds))
 
 
@@ -641,3 +648,77 @@ def c16(tier):
                                           oracles=["Obs", "C16"], budget=bud, cls=f"hooks{ctag}+{mode}"))
     bounds = "all 16 set/unset combinations of the four lifecycle commands x 4 REP graphs x {1 batch per job, one batch, 2 per batch, local}; failing teardown hooks; budget 1 on the multi-batch scenarios"
     return explore_check("C16", tier, tasks, S_RULE, COMMON_ASSUMPTIONS, dict(bounds=bounds))
+
+
+# ------------------------------------------------------------------------------ C13
+def resub_argv(failed, missing, successful):
+    a = ["jade", "resubmit-jobs", "{out}"]
+    a.append("--failed" if failed else "--no-failed")
+    a.append("--missing" if missing else "--no-missing")
+    a.append("--successful" if successful else "--no-successful")
+    return a
+
+
+def c13_tasks(tier):
+    tasks = []
+    graphs = ["chain2", "chain3", "chain3r", "fork", "diamondr"] if tier == "quick" else ["chain2", "chain2r", "chain3", "chain3r", "fork", "join", "joinr", "diamond", "diamondr", "twocomp"]
+    for g in graphs:
+        bb = S.REP[g]
+        n = len(bb)
+        exits = [(0,) * n] + [tuple(1 if k == i else 0 for k in range(n)) for i in range(n)]
+        for ec in exits:
+            for second in ("ok", "same"):
+                if second == "same" and not any(ec):
+                    continue
+                for cancel in ((0,) * n, (1,) * n):
+                    for lost in (None, "job_batch_2.sh"):
+                        for reports in (False, True):
+                            if tier == "quick" and reports and (lost or second == "same"):
+                                continue
+                            for fl in itertools.product((0, 1), repeat=3):
+                                codes = {S.NAMES[i]: ([c, 0] if second == "ok" else [c, c]) for i, c in enumerate(ec) if c}
+                                actors = [rec_actor(n), dict(name="resub", argv=resub_argv(*fl), host="login1", guard="complete"),
+                                          dict(name="rec2", argv=["jade", "try-submit-jobs", "{out}"], host="login2",
+                                               guard="idle_incomplete", after="resub", repeat=n + 2)]
+                                if tier == "thorough" or (g in ("chain3", "fork") and not reports):
+                                    actors.append(dict(name="resub2", argv=resub_argv(1, 1, 0), host="login1", guard="complete", after="resub"))
+                                    actors.append(dict(name="rec3", argv=["jade", "try-submit-jobs", "{out}"], host="login2",
+                                                       guard="idle_incomplete", after="resub2", repeat=n + 2))
+                                sc = mk_scen(bb, dict(size=1, max_nodes=None, reports=reports), cancel=cancel, actors=actors)
+                                sc["exit_codes"] = codes
+                                if lost:
+                                    if n < 2:
+                                        continue
+                                    sc["refuse_scripts"] = [lost]
+                                tasks.append(dict(id=f"resub-{g}-e{''.join(map(str, ec))}{second}-c{cancel[0]}-l{int(bool(lost))}-r{int(reports)}-f{''.join(map(str, fl))}",
+                                                  scen=sc, oracles=["Obs", "C13"], budget=(0, 0),
+                                                  cls="resubmit-complete" + ("+no-reports" if not reports else "")))
+    # refusal on an incomplete submission: the command starts at any point (free start), also on the
+    # host of the current submitter
+    for g in (["chain3", "indep3"] if tier == "quick" else ["chain3", "indep3", "fork", "diamond"]):
+        bb = S.REP[g]
+        n = len(bb)
+        for host in ("login1", "login9", "n101"):
+            for tag, gkw in (("sz1-mx1", dict(size=1, max_nodes=1)), ("sz1-mxN", dict(size=1, max_nodes=None))):
+                actors = [dict(name="resubearly", argv=resub_argv(1, 1, 0), host=host, guard="submitted_incomplete"),
+                          dict(name="rec", argv=["jade", "try-submit-jobs", "{out}"], host="login2", guard="idle_incomplete", repeat=n + 2)]
+                sc = mk_scen(bb, gkw, actors=actors)
+                tasks.append(dict(id=f"resub-early-{g}-{host}-{tag}", scen=sc, oracles=["Obs", "C13"],
+                                  budget=(0, 0) if tier == "quick" else (1, 0), cls="resubmit-incomplete"))
+    # cancel, then resubmit the missing jobs
+    for g in ("indep3", "chain3"):
+        bb = S.REP[g]
+        n = len(bb)
+        actors = [dict(CANCEL), dict(name="resub", argv=resub_argv(1, 1, 0), host="login1", guard="complete", after="cancel"),
+                  dict(name="rec2", argv=["jade", "try-submit-jobs", "{out}"], host="login2", guard="idle_incomplete", after="resub", repeat=n + 2)]
+        sc = mk_scen(bb, dict(size=1, max_nodes=1), actors=actors)
+        tasks.append(dict(id=f"cancel-resub-{g}", scen=sc, oracles=["Obs", "C13"], budget=(0, 0), cls="resubmit-after-cancel"))
+    return tasks
+
+
+@check("C13")
+def c13(tier):
+    tasks = c13_tasks(tier)
+    bounds = ("completed submissions produced by the real code for REP graphs x single failures (rerun succeeds / fails again) x cancel flags x one refused batch (missing jobs) x reports on/off, "
+              "then resubmit-jobs with all 8 flag combinations run to completion (and a second resubmission); resubmit-jobs as a free-start actor at every point of an incomplete submission from 3 hosts; cancel then resubmit")
+    return explore_check("C13", tier, tasks, S_RULE, COMMON_ASSUMPTIONS, dict(bounds=bounds))
